@@ -256,6 +256,9 @@ mod raw;
 mod reclaim;
 mod set;
 mod set_ref;
+#[cfg(flurry_verif)]
+#[doc(hidden)]
+pub mod verif;
 
 #[cfg(feature = "rayon")]
 mod rayon_impls;
